@@ -1,9 +1,57 @@
 import OdcGeo.Model.C15
 namespace OdcGeo.C15.Drv
-open OdcGeo OdcGeo.IO
+open OdcGeo OdcGeo.IO OdcGeo.C15
+
+def fmtLErr : LErr → String
+  | .valueError => "ERR:ValueError"
+  | .assertion => "ERR:AssertionError"
+
+def fmtNat (n : Nat) : String := toString n
+
+def parseKV? (s : String) : Option (String × String) :=
+  match s.splitOn "=" with
+  | [k, v] => some (k, v)
+  | _ => none
+
+/-- `T` / `F` / `s:<name>` / `d:[k=v,…]` -/
+def parseComp? (s : String) : Option CompArg :=
+  if s = "T" then some (.flag true)
+  else if s = "F" then some (.flag false)
+  else if s.startsWith "s:" then some (.name (s.drop 2).toString)
+  else if s.startsWith "d:" then (parseList? parseKV? (s.drop 2).toString).map CompArg.opts
+  else none
 
 def run (args : List String) : Option String :=
   match args with
+  | ["layout", sh, gy, gx] => do
+    let sh ← parseList? parseNat? sh; let gy ← parseNat? gy; let gx ← parseNat? gx
+    match normLayout sh ⟨gy, gx⟩ with
+    | .error e => pure (fmtLErr e)
+    | .ok l => pure s!"{l.nbands} {l.h} {l.w} {fmtBool l.transposed} {fmtBool (ambiguous sh ⟨gy, gx⟩)}"
+  | ["src", tr, k, y, x] => do
+    let tr ← parseBool? tr; let k ← parseNat? k; let y ← parseNat? y; let x ← parseNat? x
+    let (a, b, c) := srcIndex ⟨0, 0, 0, tr⟩ k y x
+    pure s!"{a} {b} {c}"
+  | ["levels", req, w, h] => do
+    let req ← parseOpt? (parseList? parseNat?) req; let w ← parseNat? w; let h ← parseNat? h
+    pure (fmtList fmtNat (levelsFor req w h))
+  | ["opts", b, w, h, fl] => do
+    let b ← parseOpt? parseNat? b; let w ← parseNat? w; let h ← parseNat? h; let fl ← parseBool? fl
+    let o := cogOpts b w h fl
+    pure s!"{o.blockxsize} {o.blockysize} {o.predictor} {fmtBool o.warns}"
+  | ["plan", m, e, o] => do
+    let m ← parseBool? m; let e ← parseBool? e; let o ← parseBool? o
+    let (acts, err) := writePlan m e o
+    let a := fmtList (fun a => match a with | Act.unlink => "unlink" | Act.write => "write") acts
+    pure (if err then s!"{a} ERR:OSError" else s!"{a} ok")
+  | ["ncomp", c] => do
+    let c ← parseComp? c
+    pure (fmtList (fun (k, v) => s!"{k}={v}") (normCompressionOpts c))
+  | ["ovr", w, h, l] => do
+    let w ← parseNat? w; let h ← parseNat? h; let l ← parseNat? l
+    if l = 0 then none else
+    let (a, b) := ovrSize w h l
+    pure s!"{a} {b}"
   | _ => none
 
 end OdcGeo.C15.Drv
